@@ -291,8 +291,9 @@ type refCell struct {
 }
 
 type refRow struct {
-	src   int
-	cells []*refCell
+	src      int
+	cells    []*refCell
+	repeated bool // row of the header or footer group, which every page of a split table repeats
 }
 
 type refGroup struct {
@@ -369,6 +370,13 @@ func (d *doc) grid() *refGrid {
 			footer = gr
 		default:
 			bodies = append(bodies, gr)
+		}
+	}
+	for _, gr := range []*refGroup{header, footer} {
+		if gr != nil {
+			for _, r := range gr.rows {
+				r.repeated = true
+			}
 		}
 	}
 	if header != nil {
@@ -876,11 +884,17 @@ func (d *doc) features(g *refGrid) []string {
 		set["tall-content"] = true
 	}
 	// a cell spanning rows that does not start in the first row of its row group
+	hasFooter := len(g.groups) > 0 && g.groups[len(g.groups)-1].kind == "tfoot"
 	for _, gr := range g.groups {
 		for y, row := range gr.rows {
 			for _, c := range row.cells {
 				if y > 0 && c.rs > 1 && !c.dropped {
 					set["rowspan-below-first-row"] = true
+				}
+				// a split table that repeats a footer group below body rows spanned by one cell:
+				// a page break between those rows puts the footer right below the cut cell
+				if c.rs > 1 && !c.dropped && d.paginated() && hasFooter && gr.kind != "tfoot" && gr.kind != "thead" {
+					set["split-rowspan-footer"] = true
 				}
 			}
 		}
